@@ -294,7 +294,8 @@ func Main(m *testing.M, cfg Config) {
 	propertyID = cfg.Property
 	start = time.Now()
 	if p := os.Getenv("VERIF_KNOWN_FINDINGS"); p != "" {
-		if b, err := os.ReadFile(p); err == nil {
+		// a directory holding one committed file per property: <dir>/<ID>.json
+		if b, err := os.ReadFile(p + "/" + cfg.Property + ".json"); err == nil {
 			var kf struct {
 				Findings []finding `json:"findings"`
 			}
